@@ -299,6 +299,26 @@ def one_case(run, seed, idx, mods):
                     break
                 check_list(run, obj, cell, sym, lim_s, ps, dict(desc, dsmax=lim_s, history="limit-on-shell:" + how),
                            "gethkls:limit-on-shell")
+        # a ring tolerance exactly equal to the gap between two neighbouring shells of the list (tolerances read off a
+        # ring table, round numbers on round cells): members of one ring differ by LESS than the tolerance, so two
+        # neighbours exactly one tolerance apart are in different rings - decided on the list's own floating point values
+        dsl = sorted(set(float(q[0]) for q in peaks))
+        cand = [i for i in range(len(dsl) - 1) if dsl[i + 1] - dsl[i] > 1e-7]
+        if cand:
+            i0 = cand[int(rr.integers(len(cand)))]
+            tol_t = dsl[i0 + 1] - dsl[i0]
+            ut = build_uc(unitcell, route, cell, sym)
+            ut.makerings(dsmax, tol_t)
+            run.count("ring_tolerance_equal_to_a_gap")
+            pkd = {tuple(q[1]): float(q[0]) for q in ut.peaks}
+            for dk in ut.ringds:
+                dd = sorted(pkd[tuple(hk)] for hk in ut.ringhkls[dk])
+                bad = [(a_, b_) for a_, b_ in zip(dd[:-1], dd[1:]) if not (b_ - a_) < tol_t]
+                if bad:
+                    run.violation("rings:gap:tie", "ring tolerance %.17g equals the gap between two neighbouring shells; the ring "
+                                  "starting at %.17g holds neighbours %.17g and %.17g whose difference is not less than the "
+                                  "tolerance" % (tol_t, dk, bad[0][0], bad[0][1]), dict(desc, tol=tol_t, history="tolerance-tie"))
+                    break
         # leave the main object as it was for the histories below
         uc.gethkls(dsmax)
     # history: shrink the limit on the same object, must equal a fresh object
@@ -415,6 +435,7 @@ def check(run, replay=None):
     run.require_counter("rings_checked", 100)
     run.require_counter("history_steps", 50)
     run.require_counter("limit_on_a_shell_calls", 200)
+    run.require_counter("ring_tolerance_equal_to_a_gap", 50)
     run.require_counter("cache_hit_calls", 50)
     run.require_counter("cache_hit_makerings", 10)
     run.require_counter("assigntorings_tables", 20)
